@@ -105,7 +105,7 @@ func (c17) Build(tier string, seed uint64) []any {
 	k := 0
 	for _, ts := range c10Syntaxes {
 		for _, pk := range []string{"nil", "default", "generic-garbage", "foreign"} {
-			for _, fr := range []string{"ok", "zero", "empty", "short", "nilpd", "nilinfo"} {
+			for _, fr := range []string{"ok", "zero", "empty", "short", "short1", "short2", "short3", "nilpd", "nilinfo"} {
 				for _, geo := range [][6]int{{8, 8, 8, 8, 1, 0}, {7, 5, 16, 12, 1, 0}, {5, 4, 8, 8, 3, 0}, {0, 5, 8, 8, 1, 0}, {5, 0, 16, 16, 1, 1}, {4, 4, 8, 8, 0, 0}, {4, 4, 8, 8, 2, 0}, {4, 4, 8, 8, 4, 0},
 					{4, 4, 0, 0, 1, 0}, {4, 4, 1, 1, 1, 0}, {4, 4, 32, 32, 1, 0}, {4, 4, 16, 17, 1, 0}, {4, 4, 8, 0, 1, 0}, {65535, 1, 8, 8, 1, 0}, {4, 4, 16, 16, 5, 0}, {3, 3, 24, 24, 1, 0}, {4, 4, 32, 32, 4, 0}, {2, 2, 64, 64, 3, 0}, {2, 2, 16, 16, 9, 0}, {3, 2, 16, 8, 1, 0}} {
 					k++
@@ -375,6 +375,13 @@ func c17Codec(c *c17Case, res mon.Result) mon.Result {
 	case "short":
 		if len(frame) > 1 {
 			src = NewPD(info, frame[:len(frame)/2])
+		} else {
+			src = NewPD(info, []byte{})
+		}
+	case "short1", "short2", "short3":
+		k := int(c.Frames[5] - '0')
+		if len(frame) > k {
+			src = NewPD(info, frame[:len(frame)-k])
 		} else {
 			src = NewPD(info, []byte{})
 		}
